@@ -57,7 +57,7 @@ REQUIRED = ['contract_weighted_sample_quantile', 'contract_weighted_var', 'contr
             'rescale_pow2_checked', 'rescale_arbitrary_checked', 'quantile_via_results', 'var_2d', 'var_unweighted', 'var_zero_weights',
             'ess_zero_weights', 'gm_d1', 'gm_dge2', 'gm_cov_scalar', 'gm_cov_matrix', 'gm_cov_default', 'gm_zero_weight_component',
             'gm_pdf_points', 'gm_logpdf_points', 'rvs_constrained', 'rvs_rows_checked', 'rvs_rejected_proposals', 'rvs_size_none',
-            'rvs_membership_checked']
+            'rvs_membership_checked', 'rvs_rare_constraint_cases']
 
 QTOL = 1e-12
 RTOL = 1e-10
@@ -376,6 +376,9 @@ def gen_cases(ctx):
                    'cons': str(rng.choice(['none', 'all', 'half', 'half', 'ball'])),
                    'size': None if rng.random() < 0.15 else int(rng.integers(1, 61)),
                    'means_2d': bool(rng.random() < 0.5)}
+            if seed % 16 == 0:
+                yield {'kind': kind, 'seed': seed + 1, 'd': d, 'k': int(rng.integers(1 if d == 1 else 2, 4)), 'cov': 'matrix' if d > 1 else 'scalar',
+                       'ws': 'random', 'cons': 'half', 'size': int(rng.integers(1, 7)), 'means_2d': True, 'rare': True}
         else:
             yield {'kind': kind, 'seed': seed, 'n': int(rng.integers(1, 60)), 'ws': str(rng.choice(['none', 'random', 'zeros', 'dyadic'])),
                    'xs': str(rng.choice(['cont', 'ties', 'int']))}
@@ -584,6 +587,10 @@ def make_constraint(case, rng, M, W, C):
         s = math.sqrt(float(a @ C @ a))
         proj = M @ a
         p = float(rng.uniform(0.2, 0.95))
+        if case.get('rare'):
+            # a constraint that only a few proposals in ten thousand satisfy (a prior whose support barely overlaps the
+            # proposal): the sampler must keep trying - every returned point still has to satisfy it
+            p = float(rng.uniform(3e-4, 1.5e-3))
         lo, hi = float(proj.min() - 12 * s), float(proj.max() + 12 * s)
         for _ in range(200):
             mid = 0.5 * (lo + hi)
@@ -593,7 +600,7 @@ def make_constraint(case, rng, M, W, C):
                 hi = mid
         c = hi
         mass = _mix_cdf(c, proj, s, W)
-        assert mass >= 0.199, mass
+        assert mass >= 0.199 or case.get('rare'), mass
 
         def pure(z):
             v = as_rows(z) @ a
@@ -652,6 +659,9 @@ def _run_gm(ctx, case, eu):
         return lp
     recording.vmon_pure = pure
     rs = BudgetRandomState(int(rng.integers(0, 2 ** 31)))
+    if case.get('rare') and desc.get('kind') == 'half':
+        rs.rounds = 400000
+        ctx.event('rvs_rare_constraint_cases')
     rkw = dict(kw)
     if case['cons'] != 'none':
         rkw['prior_logpdf'] = recording
